@@ -238,8 +238,8 @@ let () =
             | "decides" ->
               (* U db devents -> number-of-decide-calls all-equal-to-the-model (default activity parameters) *)
               let u = universe s in let db = rep s clause in let evs = rep s devent in
-              let (n, ok) = check_decides_default (table_provider u) db evs in
-              Printf.sprintf "%d %s" (int_of_n n) (b ok)
+              let ((n, ok), cok) = check_decides_default (table_provider u) db evs in
+              Printf.sprintf "%d %s %s" (int_of_n n) (b ok) (b cok)
             | "softkeep" ->
               (* levents -> nothing decided before a soft requirement was tried is ever undone *)
               let evs = rep s levent in b (soft_keep evs)
